@@ -11,6 +11,7 @@ stdin : {"seed": int, "tier": "quick"|"thorough", "only": [simkey...]|null, "nam
 stdout: {"cases": [...], "sims": {...}}   (one record per (simkey, name, form))
 """
 import io
+import os
 import json
 import sys
 import contextlib
@@ -629,6 +630,35 @@ def extra_checks(seed):
         scale = float(np.abs(K).sum(axis=1).max() * np.abs(st["u"]).max())
         ok = bool(np.all(np.abs(Ku.sum(axis=0)) <= 1e-10 * scale))
         rec(simkey, "sum-internal-forces=0", ok, "resultant %s scale %.3g" % (Ku.sum(axis=0).tolist(), scale))
+    # energy identity where the `rigi` and `mass` rules differ and `rigi` is not exact for the
+    # integrand: QUAD8 and curved-edge quadratic elements (gmsh circle inclusion), tight tolerance
+    try:
+        from EasyFEA import Models, Simulations, ElemType
+        from EasyFEA.Geoms import Domain, Circle, Point
+        dom = Domain(Point(0, 0), Point(1, 1), 0.25)
+        incl = [Circle(Point(0.5, 0.5), 1.0 / 3, 0.25)]
+        curved = [("QUAD8-organised", lambda: dom.Mesh_2D([], ElemType.QUAD8, isOrganised=True), 2),
+                  ("QUAD8-inclusion", lambda: dom.Mesh_2D(incl, ElemType.QUAD8), 2),
+                  ("TRI6-inclusion", lambda: dom.Mesh_2D(incl, ElemType.TRI6), 2),
+                  ("TRI10-inclusion", lambda: dom.Mesh_2D(incl, ElemType.TRI10), 2)]
+        if os.environ.get("VERIF_TIER") == "thorough":
+            curved += [("QUAD9-inclusion", lambda: dom.Mesh_2D(incl, ElemType.QUAD9), 2),
+                       ("TETRA10-inclusion", lambda: dom.Mesh_Extrude(incl, [0, 0, -0.5], [2], ElemType.TETRA10), 3),
+                       ("HEXA20-inclusion", lambda: dom.Mesh_Extrude(incl, [0, 0, -0.5], [2], ElemType.HEXA20), 3)]
+        for label, mk, dim in curved:
+            mesh = mk()
+            mat = Models.Elastic.Isotropic(dim, E=8.0, v=0.25, planeStress=True, thickness=0.375) if dim == 2 else Models.Elastic.Isotropic(3, E=8.0, v=0.25, thickness=2.5)
+            simu = Simulations.Elastic(mesh, mat)
+            u = rng.integers(-6, 7, mesh.Nn * dim).astype(float) / 64
+            simu._Set_solutions(simu.problemType, u.copy())
+            K = simu.Get_K_C_M_F()[0]
+            ref = 0.5 * u @ (K @ u)
+            for nm, val in (("Wdef", simu.Result("Wdef")), ("sum(Wdef_e)", float(np.sum(simu.Result("Wdef_e", nodeValues=False)))),
+                            ("Results_dict_Energy", list(simu.Results_dict_Energy().values())[0])):
+                ok, d = close(val, ref, tol=1e-9)
+                rec("Elastic:" + label, "%s:%s=half-uKu" % (label, nm), ok, d)
+    except Exception:
+        rec("Elastic:curved", "energy-curved-elements", False, traceback.format_exc()[-600:], kind="harness")
     # energies of the other classes against the Elastic reference with the same law / thickness
     for dim, key in ((2, "2d"), (3, "3d")):
         try:
